@@ -335,6 +335,9 @@ func (m *Machine) boolToInt(b *Term) *Term {
 
 func (m *Machine) callVN(caller *frame, name string, fn *ssa.Function, args []Value) Value {
 	ts := m.ts
+	if v, ok := m.callVNCli(name, args); ok {
+		return v
+	}
 	switch name {
 	case "Int":
 		lo, hi := m.concreteInt(args[0], "vn.Int bound"), m.concreteInt(args[1], "vn.Int bound")
